@@ -22,6 +22,7 @@ import (
 	"fmt"
 	"io"
 	"net"
+	"os"
 	"runtime"
 	"sort"
 	"strings"
@@ -941,7 +942,11 @@ type c15Rig struct {
 	onDial      func(d *c15Dial)               // called with mu held
 	preConnect  func(e *ServerPreConnectEvent) // called WITHOUT mu held, on the requesting goroutine
 	baseline    map[string]bool
+	baselineN   int
 }
+
+// c15DebugLeak (development aid): report goroutines left after a case as a failure with their stacks.
+var c15DebugLeak = os.Getenv("C15_DEBUG_LEAK") != ""
 
 var (
 	c15AuthOnce sync.Once
@@ -1016,7 +1021,10 @@ func c15NewRig(o c15RigOpts) (*c15Rig, error) {
 	r := &c15Rig{opts: o, proto: proto.Protocol(o.Protocol), backends: map[string]*c15Backend{},
 		closingCh: make(chan struct{}), nextPort: 41000, dialHolding: map[int]bool{}}
 	r.cond = sync.NewCond(&r.mu)
-	r.baseline = c15Baseline()
+	r.baselineN = runtime.NumGoroutine()
+	if c15DebugLeak {
+		r.baseline = c15Baseline()
+	}
 	r.cfgPhase = r.proto.GreaterEqual(version.Minecraft_1_20_2)
 	r.ids = c15MakeIDs(r.proto)
 
@@ -1218,17 +1226,29 @@ func (r *c15Rig) close() string {
 	// Goroutines of the proxy (backend read loops, context watchers) end
 	// asynchronously after their connection was closed; wait for them.
 	deadline := time.Now().Add(c15Watchdog)
-	for {
-		st := c15Stacks("go.minekube.com/gate/pkg/edition/java", r.baseline)
-		if st == "" {
-			return ""
-		}
+	pause := 20 * time.Microsecond
+	for runtime.NumGoroutine() > r.baselineN {
 		if time.Now().After(deadline) {
-			return st
+			return c15Stacks("go.minekube.com/gate/pkg/edition/java", r.baseline)
 		}
 		runtime.Gosched()
-		time.Sleep(200 * time.Microsecond)
+		time.Sleep(pause)
+		if pause < 2*time.Millisecond {
+			pause *= 2
+		}
 	}
+	return ""
+}
+
+// c15Printable keeps the printable ASCII of a payload (to read kick reasons in messages).
+func c15Printable(p []byte) string {
+	var sb strings.Builder
+	for _, b := range p {
+		if b >= 0x20 && b < 0x7f {
+			sb.WriteByte(b)
+		}
+	}
+	return sb.String()
 }
 
 // c15GoID extracts "goroutine N" from a stack section.
@@ -1264,7 +1284,8 @@ func c15Stacks(marker string, baseline map[string]bool) string {
 		if baseline[c15GoID(s)] {
 			continue // existed before the case (package-level background goroutines)
 		}
-		if strings.Contains(s, marker) && !strings.Contains(s, "testing.tRunner") && !strings.Contains(s, "rapid.") {
+		if strings.Contains(s, marker) && !strings.Contains(s, "testing.tRunner") && !strings.Contains(s, "rapid.") &&
+			!strings.Contains(s, "lite.init") {
 			out = append(out, s)
 		}
 	}
